@@ -307,6 +307,63 @@ def run_env(cfg, sid, transport, ka, latency, reject, seed):
     return n, vio
 
 
+def job_spike(j):
+    """One request of write_setting() - or of the read-back that follows - is answered later than one timeout (a latency
+    spike; the retransmission is answered at once, the late answer arrives while later requests are under way), for every
+    request position: if write_setting() reports success the registers hold the encoding and the setting reads back."""
+    cfg, sid, transport, ka, seed = j
+    vio = []
+    n = 0
+    probe = make_rig(cfg, transport, fill=lambda a: 0)
+    if probe.call(probe.inv.read_device_info)[0] != 'ok':
+        return 0, []
+    s0 = probe.inv._settings.get(sid)
+    if s0 is None or not in_scope(cfg, s0):
+        return 0, []
+    t = type(s0).__name__
+    nregs = (refdec.size_of(s0) + 1) // 2 if t not in ('ByteH', 'ByteL') else 1
+    vals = domain(s0, False)
+    v = vals[len(vals) // 2]
+    vs = v.hex() if isinstance(v, bytes) else str(v)
+    l0 = len(probe.dev.log)
+    probe.call(probe.inv.write_setting, sid, v)
+    probe.call(probe.inv.read_setting, sid)
+    nreq = len(probe.dev.log) - l0
+    for k in range(nreq):
+        for late in (1.2, 1.7):
+            r = make_rig(cfg, transport, fill=lambda a: ((a * 40503 + seed * 31 + 7) & 0xFFFF) % 60000, T=1, R=1, ka=ka)
+            inv, dev = r.inv, r.dev
+            if r.call(inv.read_device_info)[0] != 'ok':
+                continue
+            s = inv._settings.get(sid)
+            prior_bytes = dev.rf.getbytes(s.offset, nregs)
+            base = len(dev.log)
+            dev.delay_fn = lambda d, rq, base=base, k=k, late=late: late if len(d.log) - 1 == base + k else 0.15     # (every answer takes a while: the late one lands inside a later request)
+            res = r.call(inv.write_setting, sid, v)
+            n += 1
+            if res[0] != 'ok':
+                continue
+            back = r.call(inv.read_setting, sid)
+            r.loop.settle(3)
+            env = f'{transport}, ka={int(ka)}, request #{k + 1} answered after {late} timeouts'
+            want = refdec.encode(s, v, prior_bytes)
+            if dev.rf.getbytes(s.offset, nregs) != want:
+                vio.append((f'carries-the-encoding/{t}/latency-spike', f'{sid}={vs}: registers {dev.rf.getbytes(s.offset, nregs).hex()}, encoding {want.hex()} ({env})', vs))
+            elif back[0] == 'ok' and not isinstance(v, bytes) and not (refdec.same(back[1], v) or back[1] == v) and \
+                    t not in ('Decimal', 'Voltage', 'Current', 'CurrentS'):
+                vio.append((f'reads-back/{t}/latency-spike', f'{sid}: wrote {vs}, read back {back[1]!r} ({env})', vs))
+    out = {}
+    for key, cause, vs_ in vio:
+        kk = f"{key}/{cfg['name']}"
+        out.setdefault(kk, []).append(dict(key=kk, clause=key.split('/')[0], replay=dict(part='spike', cfg=cfg, sid=sid, transport=transport, ka=ka, seed=seed),
+                                           detail=dict(cause=cause, setting=sid, value=vs_)))
+    res = []
+    for key, lst in out.items():
+        lst[0]['n'] = len(lst)
+        res.append(lst[0])
+    return n, res
+
+
 def job_clamping(j):
     """The inverter stores another value than the one sent (it clamps to its own limits) and its acknowledgement says
     so: write_setting() must not report success - whenever it does, the setting has to read back as written."""
@@ -606,6 +663,15 @@ def run(tier, seed, rep):
                     if transport == 'udp' or tier == 'thorough':
                         for code in (3, 4, 6):
                             ejobs.append((cfg, sid, transport, ka, 0.001, code, seed))
+    nsp = 0
+    spjobs = [(c, sid, tr, ka, seed) for c in settings_configs() if c['family'] != 'ES'
+              for sid in ('grid_export_limit', 'battery_soc_protection', 'eco_mode_2_switch', 'eco_mode_2') for tr in ('tcp',) for ka in (False, True)]
+    # (Modbus/TCP only: there a transmission that timed out takes its connection with it, so its late answer cannot reach a
+    # later request.  Over UDP nothing ties an answer to its request - a late acknowledgement CAN land in the read-back; a
+    # network fault like that is outside what this property quantifies over, DESIGN 7.4)
+    for n, res in pmap(job_spike, spjobs):
+        nsp += n
+        rep.add_many(res)
     ncl = 0
     cljobs = [(c, sid, tr, seed) for c in settings_configs() if c['family'] != 'ES'
               for sid in ('grid_export_limit', 'battery_discharge_depth', 'eco_mode_2_switch', 'work_mode', 'shadow_scan_pv1') for tr in ('udp', 'tcp')]
@@ -638,7 +704,7 @@ def run(tier, seed, rep):
         total += n
         ne += e
         rep.add_many(res)
-    cov = dict(writes_the_inverter_stored_differently=ncl, overlapping_write_pairs=now_, writes_after_a_read_that_lost_its_tail=nlt, writes_with_a_neighbour_object=nnb, environment_runs=nenv, api_session_histories=_api['histories'], api_session_states=_api['states'],
+    cov = dict(writes_with_a_latency_spike=nsp, writes_the_inverter_stored_differently=ncl, overlapping_write_pairs=now_, writes_after_a_read_that_lost_its_tail=nlt, writes_with_a_neighbour_object=nnb, environment_runs=nenv, api_session_histories=_api['histories'], api_session_states=_api['states'],
                states=max(ne, 1), transitions=max(total, 1), executions=total, traces_validated_against_impl=total,
                settings_jobs=len(jobs), distinct_encodings_written=ne, exhaustive=(tier == 'thorough'),
                bound='every setting of ET (eco v1 / v2 / 745 variants), DT (single / three phase) and the register-addressed ES '
@@ -666,6 +732,9 @@ def replay(r):
     cfg['refused'] = tuple(cfg['refused'])
     if 'firmware' in cfg and isinstance(cfg['firmware'], dict):
         cfg['firmware'] = bytes.fromhex(cfg['firmware']['hex'])
+    if r.get('part') == 'spike':
+        n, res = job_spike((cfg, r['sid'], r['transport'], r['ka'], r['seed']))
+        return dict(writes=n, violations=[(v['key'], v['detail']['cause']) for v in res])
     if r.get('part') == 'clamping':
         n, res = job_clamping((cfg, r['sid'], r['transport'], r['seed']))
         return dict(writes=n, violations=[(v['key'], v['detail']['cause']) for v in res])
